@@ -1,4 +1,5 @@
 """Harness sets of the statechart step harness (h_fsm.rs) shared by C01, C02, C06, C07."""
+import os
 
 QUICK = [
     ('h_start_all', 'start-up of all 15 catalogue shapes, early/late binding'),
@@ -40,6 +41,10 @@ def run_set(c, only, expect_step, expect_start):
     c.assumptions += ASSUME
     c.outside += OUTSIDE
     hs = list(QUICK) + (list(THOROUGH_EXTRA) if c.tier == 'thorough' else [])
+    sub = os.environ.get('VERIF_SC_ONLY')       # development aid for sweeps over seeded changes; never set by a registered command
+    if sub:
+        hs = [x for x in hs if x[0] in sub.split(',')]
+        c.outside.append('DEVELOPMENT SUBSET (VERIF_SC_ONLY=%s): not the registered check' % sub)
     for h, what in hs:
         exp = expect_start if h == 'h_start_all' else expect_step
         c.run_m(h, expect_checks=exp, expect_cover=((210,) if h == 'h_start_all' else (204,)), bounds=dict(BOUNDS, shape=what), only=only, diff_samples=2)
